@@ -336,10 +336,12 @@ void DnsRequest::onUdpRecv(const void *data_ptr, size_t data_size, const SockAdd
         }
     }
 
-    if (req->cb)
-        req->cb(result);
-
+    //! 先移出回调并删除请求，再回调；否则回调中 cancel() 自身会销毁正在执行的 std::function
+    Callback cb = std::move(req->cb);
     deleteRequest(req_id);
+
+    if (cb)
+        cb(result);
     (void)from;
 }
 
@@ -352,10 +354,11 @@ void DnsRequest::onRequestTimeout(ReqId req_id)
     Result result;
     result.status = Result::Status::kTimeout;
 
-    if (req->cb)
-        req->cb(result);
-
+    Callback cb = std::move(req->cb);
     deleteRequest(req_id);
+
+    if (cb)
+        cb(result);
 }
 
 void DnsRequest::addRequest(ReqId req_id, const Callback &cb)
